@@ -32,7 +32,7 @@ type sigAdapter struct {
 	markRO  func(any)
 	isRO    func(any) bool
 	// build a fan-out over consumers with the given capabilities; cb is invoked for every call
-	build func(caps []bool, cb func(i int, d any) error) (consume func(any) error, mutates bool)
+	build func(caps []bool, cb func(i int, d any) error) (consume func(context.Context, any) error, mutates bool)
 }
 
 func ptrOf(d any) uintptr { return reflect.ValueOf(d).Field(0).Pointer() }
@@ -52,7 +52,7 @@ func adapters() []sigAdapter {
 			attrs:   func(d any) pcommon.Map { return d.(plog.Logs).ResourceLogs().At(0).Resource().Attributes() },
 			markRO:  func(d any) { d.(plog.Logs).MarkReadOnly() },
 			isRO:    func(d any) bool { return d.(plog.Logs).IsReadOnly() },
-			build: func(caps []bool, cb func(int, any) error) (func(any) error, bool) {
+			build: func(caps []bool, cb func(int, any) error) (func(context.Context, any) error, bool) {
 				var cs []consumer.Logs
 				for i, m := range caps {
 					i := i
@@ -61,7 +61,7 @@ func adapters() []sigAdapter {
 					cs = append(cs, c)
 				}
 				f := NewLogs(cs)
-				return func(d any) error { return f.ConsumeLogs(context.Background(), d.(plog.Logs)) }, f.Capabilities().MutatesData
+				return func(ctx context.Context, d any) error { return f.ConsumeLogs(ctx, d.(plog.Logs)) }, f.Capabilities().MutatesData
 			},
 		},
 		{
@@ -77,7 +77,7 @@ func adapters() []sigAdapter {
 			attrs:   func(d any) pcommon.Map { return d.(pmetric.Metrics).ResourceMetrics().At(0).Resource().Attributes() },
 			markRO:  func(d any) { d.(pmetric.Metrics).MarkReadOnly() },
 			isRO:    func(d any) bool { return d.(pmetric.Metrics).IsReadOnly() },
-			build: func(caps []bool, cb func(int, any) error) (func(any) error, bool) {
+			build: func(caps []bool, cb func(int, any) error) (func(context.Context, any) error, bool) {
 				var cs []consumer.Metrics
 				for i, m := range caps {
 					i := i
@@ -86,7 +86,7 @@ func adapters() []sigAdapter {
 					cs = append(cs, c)
 				}
 				f := NewMetrics(cs)
-				return func(d any) error { return f.ConsumeMetrics(context.Background(), d.(pmetric.Metrics)) }, f.Capabilities().MutatesData
+				return func(ctx context.Context, d any) error { return f.ConsumeMetrics(ctx, d.(pmetric.Metrics)) }, f.Capabilities().MutatesData
 			},
 		},
 		{
@@ -102,7 +102,7 @@ func adapters() []sigAdapter {
 			attrs:   func(d any) pcommon.Map { return d.(ptrace.Traces).ResourceSpans().At(0).Resource().Attributes() },
 			markRO:  func(d any) { d.(ptrace.Traces).MarkReadOnly() },
 			isRO:    func(d any) bool { return d.(ptrace.Traces).IsReadOnly() },
-			build: func(caps []bool, cb func(int, any) error) (func(any) error, bool) {
+			build: func(caps []bool, cb func(int, any) error) (func(context.Context, any) error, bool) {
 				var cs []consumer.Traces
 				for i, m := range caps {
 					i := i
@@ -111,7 +111,7 @@ func adapters() []sigAdapter {
 					cs = append(cs, c)
 				}
 				f := NewTraces(cs)
-				return func(d any) error { return f.ConsumeTraces(context.Background(), d.(ptrace.Traces)) }, f.Capabilities().MutatesData
+				return func(ctx context.Context, d any) error { return f.ConsumeTraces(ctx, d.(ptrace.Traces)) }, f.Capabilities().MutatesData
 			},
 		},
 		{
@@ -127,7 +127,7 @@ func adapters() []sigAdapter {
 			attrs:   func(d any) pcommon.Map { return d.(pprofile.Profiles).ResourceProfiles().At(0).Resource().Attributes() },
 			markRO:  func(d any) { d.(pprofile.Profiles).MarkReadOnly() },
 			isRO:    func(d any) bool { return d.(pprofile.Profiles).IsReadOnly() },
-			build: func(caps []bool, cb func(int, any) error) (func(any) error, bool) {
+			build: func(caps []bool, cb func(int, any) error) (func(context.Context, any) error, bool) {
 				var cs []xconsumer.Profiles
 				for i, m := range caps {
 					i := i
@@ -136,7 +136,7 @@ func adapters() []sigAdapter {
 					cs = append(cs, c)
 				}
 				f := NewProfiles(cs)
-				return func(d any) error { return f.ConsumeProfiles(context.Background(), d.(pprofile.Profiles)) }, f.Capabilities().MutatesData
+				return func(ctx context.Context, d any) error { return f.ConsumeProfiles(ctx, d.(pprofile.Profiles)) }, f.Capabilities().MutatesData
 			},
 		},
 	}
@@ -181,8 +181,12 @@ func tagsOf(m pcommon.Map) string {
 }
 
 // one fan-out run on the real code; writes op + obs lines.
-func runFanCase(out *vOut, ad sigAdapter, caps, fail, syncw []bool, inputRO bool, undecl int) {
-	out.Linef("op fan sig=%s caps=%s ro=%d fail=%s syncw=%s undecl=%d", ad.name, bits(caps), vB(inputRO), bits(fail), bits(syncw), undecl)
+// cancelAt: the consumer with this index cancels the request context while it is being served (and, if it fails, returns
+// the context's error): every other consumer must still be invoked ("even if an earlier one failed"); -1 = never.
+func runFanCase(out *vOut, ad sigAdapter, caps, fail, syncw []bool, inputRO bool, undecl int, cancelAt int) {
+	out.Linef("op fan sig=%s caps=%s ro=%d fail=%s syncw=%s undecl=%d cancel=%d", ad.name, bits(caps), vB(inputRO), bits(fail), bits(syncw), undecl, cancelAt)
+	ctx, cancel := context.WithCancel(context.Background())
+	defer cancel()
 	data := ad.newData()
 	sent := ad.marshal(data)
 	if inputRO {
@@ -215,13 +219,19 @@ func runFanCase(out *vOut, ad sigAdapter, caps, fail, syncw []bool, inputRO bool
 		if !eq {
 			out.Linef("viol sig=C06/fanout/content-differs-at-call consumer=%d signal=%s", i, ad.name)
 		}
+		if i == cancelAt {
+			cancel()
+			if fail[i] {
+				return ctx.Err()
+			}
+		}
 		if fail[i] {
 			return errors.New("fail")
 		}
 		return nil
 	})
 	out.Linef("obs cap %d", vB(mutates))
-	err := consume(data)
+	err := consume(ctx, data)
 	out.Linef("obs err %d", len(multierr.Errors(err)))
 	nfail := 0
 	for _, f := range fail {
@@ -311,8 +321,12 @@ func TestVerifC06Fanout(t *testing.T) {
 			}
 		}
 		out.Linef("case %d", c)
+		cancelAt := -1
+		if rnd.IntN(3) == 0 {
+			cancelAt = rnd.IntN(k)
+		}
 		for _, ad := range ads {
-			runFanCase(out, ad, caps, fail, syncw, inputRO, undecl)
+			runFanCase(out, ad, caps, fail, syncw, inputRO, undecl, cancelAt)
 		}
 		if mixed[0] && mixed[1] {
 			out.Linef("nt")
@@ -348,7 +362,10 @@ func TestVerifC06Fanout(t *testing.T) {
 						all[i] = true
 					}
 					for _, ad := range ads {
-						runFanCase(out, ad, caps, none, all, inputRO, undecl)
+						// in the exhaustive scope the first consumer in the slice cancels the context and fails
+						first := append([]bool{}, none...)
+						first[0] = true
+						runFanCase(out, ad, caps, first, all, inputRO, undecl, 0)
 					}
 					if mask != 0 && mask != 1<<k-1 {
 						out.Linef("nt")
